@@ -298,6 +298,53 @@ func analyseProgs(c *core.Ctx, progs []Prog, progress string, startAt int) {
 	pf, _ := os.Create(progress)
 	defer pf.Close()
 	idx := 0
+	first := map[string]string{} // unit -> printed result in the first universe
+	defer func() {
+		// the same module loaded a second time in the same process: a fresh universe must give the same
+		// answers (nothing may be remembered per process under keys that recur, such as names or positions)
+		if startAt > 0 || len(first) == 0 {
+			return
+		}
+		os.Stdout = null2()
+		u2, err := gengotypes.Load([]string{"./p/..."}, gengotypes.WithDir(dir))
+		os.Stdout = realStdout
+		if err != nil {
+			c.Internal("second load: %v", err)
+			return
+		}
+		for i, p := range progs {
+			pkg := u2.Package(fmt.Sprintf("%s/p/k%05d", modPath, i))
+			if pkg == nil {
+				continue
+			}
+			for fi := range p.Shapes {
+				id := fmt.Sprintf("f%d of {%s}", fi, p)
+				want, ok := first[id]
+				fn, _ := pkg.Pkg().Scope().Lookup(fmt.Sprintf("f%d", fi)).(*types.Func)
+				if !ok || fn == nil {
+					continue
+				}
+				pf.Seek(0, 0)
+				pf.Truncate(0)
+				fmt.Fprintf(pf, "%d %d %d\n", 1<<30, i, fi)
+				var got string
+				func() {
+					defer func() {
+						if r := recover(); r != nil {
+							got = fmt.Sprint("panic: ", r)
+						}
+					}()
+					r, n := pkg.ResultsOf(fn)
+					got = fmt.Sprint(n, " ", r.String())
+				}()
+				c.Trans(1)
+				if got != want {
+					pp := p
+					c.Fail("", Case{Corpus: "synthetic", Unit: id, Prog: &pp}, "ResultsOf(%s) = %s in a second universe loaded in the same process, %s in the first", id, got, want)
+				}
+			}
+		}
+	}()
 	for i, p := range progs {
 		path := fmt.Sprintf("%s/p/k%05d", modPath, i)
 		pkg := u.Package(path)
@@ -323,9 +370,20 @@ func analyseProgs(c *core.Ctx, progs []Prog, progress string, startAt int) {
 			pf.Truncate(0)
 			fmt.Fprintf(pf, "%d %d %d\n", idx-1, i, fi)
 			pp := p
-			judge(c, Case{Corpus: "synthetic", Unit: fmt.Sprintf("f%d of {%s}", fi, p), Prog: &pp}, unit{fmt.Sprintf("f%d of {%s}", fi, p), fn, pkg}, wants[i][fi])
+			id := fmt.Sprintf("f%d of {%s}", fi, p)
+			judge(c, Case{Corpus: "synthetic", Unit: id, Prog: &pp}, unit{id, fn, pkg}, wants[i][fi])
+			func() {
+				defer func() { _ = recover() }()
+				r, n := pkg.ResultsOf(fn)
+				first[id] = fmt.Sprint(n, " ", r.String())
+			}()
 		}
 	}
+}
+
+func null2() *os.File {
+	f, _ := os.OpenFile(os.DevNull, os.O_WRONLY, 0)
+	return f
 }
 
 func pkgErrors(p gengotypes.Package) string {
